@@ -297,7 +297,7 @@ pub fn build(sc: &Value, env: &Arc<Env>) -> Graph {
     }
     {
         let pups = puppets.clone();
-        let k: crate::env::Kicker = Arc::new(move |ix, pup| pups[&pup].top(ix, "emit"));
+        let k: crate::env::Kicker = Arc::new(move |ix, pup, act| pups[&pup].top(ix, act));
         *env.kicker.lock().unwrap_or_else(|e| e.into_inner()) = Some(k);
     }
     Graph { env: Arc::clone(env), root, probes, sink_kinds, puppets, nurse }
